@@ -8,6 +8,12 @@ def main(tier):
     rep = Report('C32', tier)
     n = len(samplers.cases(tier))
     runner.run(rep, 'ClusterSupercell::evaluators-agree', M.w_evaluators, [(i, tier, SEED) for i in range(n)], 'onsager/supercell.py::ClusterSupercell')
+    # site addressing under E1 contract (level P): index / ciR are an encode / decode pair, for every supercell size and site count
+    from vf.pyvc import driver
+    from contracts import clustersupercell_c as CS
+    for c in CS.CONTRACTS: driver.verify_function(c(), rep, tier)
+    for a in CS.Index.ABSTRACTED: rep.assume('ClusterSupercell.index contract, abstracted: ' + a)
+    rep.assume('ClusterSupercell.index / ciR contracts, representation invariant (precondition, checked on real objects at run time): indexmobile / indexspectator enumerate mobileindices / spectatorindices, transdict enumerates the cells in the order of Rveclist')
     from vf import extract
     for rel, q in [('onsager/supercell.py', 'ClusterSupercell.evalcluster'), ('onsager/supercell.py', 'ClusterSupercell.expandcluster_matrices'), ('onsager/supercell.py', 'ClusterSupercell.clusterevaluator'), ('onsager/cluster.py', 'MonteCarloSampler.__init__'), ('onsager/cluster.py', 'MonteCarloSampler.E')]:
         try:
